@@ -18,8 +18,9 @@ RULE = ("(a) Field.grad/div/curl/laplace on 1-4-d meshes with anisotropic dyadic
         "manual label, nvdim equal / unequal to ndim, open and periodic directions, with and without invalid cells: result "
         "arrays, validity, labels, mapping, unit and accept/refuse must equal the rational model (exactly in the exact regime, "
         "absolute bound 2^-30*(max|f|/h + max|f|/h^2) otherwise); (b) one quarter turn Field.rotate90 of the operand (random "
-        "axis pair, also the same axis twice / an unknown axis) against the model's rot90Fld: geometry, n, bc, units, validity, "
-        "labels, mapping, values (scalars exactly, vectors within 2^-40 because the code multiplies by cos/sin(pi/2)); "
+        "axis pair, also the same axis twice / an unknown axis) against the model's rot90Fld, and Field.rotate90 with a random integer k in "
+        "-9..9 (negative, multiples of 4, |k|>4) against the model's rot90FldK: geometry, n, bc, units, validity, "
+        "labels, mapping, values (scalars exactly, vectors within 2^-40 because the code multiplies by cos/sin(k*pi/2)); "
         "(c) constructor path and the vdims / vdim_mapping setters (valid and malformed): labels, mapping, reversed mapping and "
         "accept/refuse must equal the model; (d) __getattr__ and << against the model. Oracle on the real code alone: refusals "
         "exactly as the property lists them; exactness on polynomials of total degree <=2 (n>=3 per axis, open, fully valid) "
@@ -30,16 +31,19 @@ RULE = ("(a) Field.grad/div/curl/laplace on 1-4-d meshes with anisotropic dyadic
         "non-trivial = non-constant data and at least one operator accepted, or a meta/parts case")
 TRUSTED = ["harness/c05.py, harness/fieldio.py + driver JSON glue",
            "Field.diff modelled by DFV.C04.diff (tied to the code by C04's own correspondence run and re-exercised here through all four operators)",
-           "np.stack / np.rot90 / broadcasting / dict update semantics modelled by contract; cos/sin(k*pi/2) modelled by their exact values"]
+           "np.stack / np.rot90 (index maps of Model/Transform.lean) / broadcasting / dict update semantics modelled by contract; cos/sin(k*pi/2) modelled by their exact values"]
 ASSUMPTIONS = ["exact-regime inputs (dyadic corners, cells 2^-k, small-integer polynomial coefficients): every binary64 operation on the code path of the four operators is exact, so equality is demanded",
                "component labels are not names of Field attributes (the hasattr test of the vdims setter is not modelled)",
                "operands of + - << inside the operators live on the same mesh object (mesh equality is modelled as structural equality); meshes carry no subregions",
                "findings D55 (vector Laplacian lost labels and mapping) and D56 (Mesh.rotate90 kept bc) are fixed in /repo; their witnesses are corpus cases that must pass"]
-UNPROVED = ["ops_commute_rot90 is proved in the *_rot90_partial form (grad, div, curl, scalar and vector laplace, each with a theorem that the four fields exist): "
-            "one quarter turn k=1 about the region centre, fully valid fields, ndim<=4 for grad, any combination of open and periodic axes in the plane "
-            "(single-character axis names or axes periodic alike), any mapping; other k and fields with invalid cells are checked by the oracle on the real code only",
-            "div_perm/curl_perm (DESIGN.md): invariance under permuting the storage order together with the mapping is oracle-only; div_eq/curl_eq state the "
-            "pairing per stored component through the mapping and div_relabel proves independence of label spelling"]
+UNPROVED = ["ops_commute_rot90 is proved for every integer k, every validity mask and every combination of open and periodic axes in the plane "
+            "(*_rot90_quarter, *_rot90_iter by induction over the number of quarter turns, *_rot90_all_k on the code-shaped one-go model rot90FldK, "
+            "rotate90_k_refines_turns_scalar/vector, *_congr). Restrictions of the statements: rotation about the region centre, copy form (an explicit "
+            "reference point and the in-place form are C12/C13's); meshes without subregions; axis names single characters or the two axes of the plane "
+            "periodic alike (TurnWf: that is when Mesh.rotate90 accepts the turned bc); grad for ndim <= 4 (the positional default labels are a fixed table); "
+            "vector fields whose mapping pairs the two axes of the plane with two different components (div / curl: one-to-one onto the axes)",
+            "div_perm / curl_perm are proved for a relocation pi given with its inverse (any bijection of the component positions), any new labels, the mapping "
+            "carried along; the statement fixes how g is obtained from f (same mesh, validity, values relocated), it does not construct g"]
 BUDGET = {"quick": 120, "thorough": 1200}
 
 DIMPOOL = ["x", "y", "z", "a", "b", "c", "u", "v", "w", "t"]
@@ -495,6 +499,9 @@ def run_ops(case, obs):
         ra, rb = dims_[0], "nodim"
     obs["rot_axes"] = [ra, rb]
     obs["rot"] = attempt(lambda: f.rotate90(ra, rb))
+    # Field.rotate90 with an arbitrary integer k (negative, multiples of 4, |k| > 4), tied to the model's rot90FldK
+    obs["rot_k"] = rng.choice([-9, -8, -7, -6, -5, -4, -3, -2, -1, 0, 2, 3, 4, 5, 6, 7, 8, 9])
+    obs["rotk"] = attempt(lambda: f.rotate90(ra, rb, k=obs["rot_k"]))
     check_refusals(f, res, fail)
     exact_applies = check_exactness(case, f, res, scale, fail)
     check_identities(case, f, res, scale, fail)
@@ -669,7 +676,8 @@ def model_requests(case, obs):
         return []
     if case["kind"] == "ops":
         return [dict(op=op, field=obs["field"]) for op in OPS] + \
-               [dict(op="rot90", field=obs["field"], a=obs["rot_axes"][0], b=obs["rot_axes"][1])]
+               [dict(op="rot90", field=obs["field"], a=obs["rot_axes"][0], b=obs["rot_axes"][1]),
+                dict(op="rot90k", field=obs["field"], a=obs["rot_axes"][0], b=obs["rot_axes"][1], k=obs["rot_k"])]
     if case["kind"] == "meta":
         if "mk" not in obs:
             return []
@@ -757,6 +765,10 @@ def compare(case, obs, rs):
             # (which of two components mapped onto the SAME axis the reversed mapping keeps is incidental: not compared)
             cmp_res(f"Field.rotate90({obs['rot_axes'][0]},{obs['rot_axes'][1]})", obs["rot"], rs[len(OPS)], dis,
                     exact=False, tol=(0.0 if (case["exact"] and fs["nvdim"] == 1) else obs.get("rot_tol", 0.0)), geometry=True)
+            if "rotk" in obs and len(rs) > len(OPS) + 1:
+                cmp_res(f"Field.rotate90({obs['rot_axes'][0]},{obs['rot_axes'][1]},k={obs['rot_k']})", obs["rotk"],
+                        rs[len(OPS) + 1], dis, exact=False,
+                        tol=(0.0 if (case["exact"] and fs["nvdim"] == 1) else obs.get("rot_tol", 0.0)), geometry=True)
     elif case["kind"] == "meta":
         cmp_meta("Field(...) labels/mapping", obs["mk_res"], rs[0], dis)
         pos = 1
